@@ -259,6 +259,7 @@ def run(ctx):
     c03mod.run_translator(ctx)
     DP[0] = bool(ctx.cov.get("extracted", {}).get("lineAfterDecodesParts"))
     ctx.prove(PROP)
+    ctx.prove("RModel.Props.Compose")      # preview_plus_line_is_line_after_apply: C15 chained with the whole apply model (C02)
     ok, msg = common.cargo_build()
     if not ok:
         ctx.broke("build", "cargo", msg)
